@@ -310,3 +310,228 @@ FN_OVERLAYS['vector::bool_vector_not'].setdefault('proofs', {})['body_start'] = 
 
 for _p in ['vector::int_vector_multiply', 'vector::int_vector_divide']:
     FN_OVERLAYS[_p]['text'] = '    requires envelope(*old(push_state)),\n'
+
+# ------------------------------------------------------------------ C09: GET / SET / LENGTH / constructors / ROTATE / APPEND ...
+VEC = {'BOOLVECTOR': ('boolvec', 'bool', 2, 'true', 'false'), 'INTVECTOR': ('intvec', 'int', 10, '1i32', '0i32'),
+       'FLOATVECTOR': ('floatvec', 'float', 6, '1.0f32', '0.0f32')}
+
+
+def top_vec_becomes(x, expr, cond):
+    """the top vector of stack x is modified in place: everything below it is untouched"""
+    return ('fired.%s.inplace' % x, '(%s) ==> (S1.%s.len() == S0.%s.len() && drop_n(S1.%s, 1) =~= drop_n(S0.%s, 1) && top(S1.%s, 0).values@ =~= (%s))'
+            % (cond, x, x, x, x, x, expr))
+
+
+for T, (x, e, sid, one, zero) in VEC.items():
+    v = 'top(S0.%s, 0).values@' % x
+    row(T + '.ID', ['C09'], pushes=[('int', '%di32' % sid)])
+    row(T + '.LENGTH', ['C09'], fired='(S0.%s.len() >= 1)' % x, pushes=[('int', '%s.len() as i32' % v)])
+    for nm, val in [('ONES', one), ('ZEROS', zero)]:
+        row(T + '.' + nm, ['C09'], takes=[('int', 1)], guard='top(S0.int, 0) > 0', pushes=[(x, None)],
+            clauses=[('fired.value.%s.0' % x, '(S0.int.len() >= 1 && top(S0.int, 0) > 0) ==> top(S1.%s, 0).values@ =~= Seq::new(top(S0.int, 0) as nat, |i: int| %s)' % (x, val))])
+    # f32 `==` is IEEE: the FLOATVECTOR comparison result is not a spec-level equality (shape only)
+    row(T + '.EQUAL', ['C09'], takes=[(x, 2)], pushes=[('bool', None if T == 'FLOATVECTOR' else 'vstd::std_specs::cmp::PartialEqSpec::eq_spec(&top(S0.%s, 1), &top(S0.%s, 0))' % (x, x))])
+    if e != 'int':
+        idx = 'top(S0.int, 0) as int'
+        # GET: the index clamped into the vector; the vector stays
+        row(T + '.GET', ['C09'], takes=[('int', 1)], guard='S0.%s.len() >= 1 && %s.len() > 0' % (x, v),
+            pushes=[(e, '%s[clamp_idx(%s, %s.len() as int)]' % (v, idx, v))])
+        # SET: replaces element clamp(i) of the top vector by the top element item
+        can = 'S0.int.len() >= 1 && S0.%s.len() >= 1 && S0.%s.len() >= 1 && %s.len() > 0' % (e, x, v)
+        row(T + '.SET', ['C09'], takes=[('int', 1), (e, 1)], touches=[x], clauses=[
+            top_vec_becomes(x, '%s.update(clamp_idx(%s, %s.len() as int), top(S0.%s, 0))' % (v, idx, v, e), can),
+            ('{C09,C10}unfired.%s' % x, '!(%s) ==> S1.%s == S0.%s' % (can, x, x))])
+        # ROTATE: everything moves one position to the left, the new last element comes from the element stack
+        canr = 'S0.%s.len() >= 1 && S0.%s.len() >= 1 && %s.len() > 0' % (e, x, v)
+        row(T + '.ROTATE', ['C09'], takes=[(e, 1)], touches=[x], clauses=[
+            top_vec_becomes(x, '%s.subrange(1, %s.len() as int).push(top(S0.%s, 0))' % (v, v, e), canr),
+            ('{C09,C10}unfired.%s' % x, '!(%s) ==> S1.%s == S0.%s' % (canr, x, x))])
+    else:
+        idx = 'top(S0.int, 0) as int'
+        row(T + '.GET', ['C09'], takes=[('int', 1)], guard='S0.%s.len() >= 1 && %s.len() > 0' % (x, v),
+            pushes=[('int', '%s[clamp_idx(%s, %s.len() as int)]' % (v, idx, v))])
+        can = 'S0.int.len() >= 2 && S0.%s.len() >= 1 && %s.len() > 0' % (x, v)
+        row(T + '.SET', ['C09'], takes=[('int', 2)], touches=[x], clauses=[
+            top_vec_becomes(x, '%s.update(clamp_idx(%s, %s.len() as int), top(S0.int, 1))' % (v, idx, v), can),
+            ('{C09,C10}unfired.%s' % x, '!(%s) ==> S1.%s == S0.%s' % (can, x, x))])
+        canr = 'S0.int.len() >= 1 && S0.%s.len() >= 1 && %s.len() > 0' % (x, v)
+        row(T + '.ROTATE', ['C09'], takes=[('int', 1)], touches=[x], clauses=[
+            top_vec_becomes(x, '%s.subrange(1, %s.len() as int).push(top(S0.int, 0))' % (v, v), canr),
+            ('{C09,C10}unfired.%s' % x, '!(%s) ==> S1.%s == S0.%s' % (canr, x, x))])
+    if T != 'BOOLVECTOR':
+        row(T + '.EMPTY', ['C09'], pushes=[(x, None)], clauses=[('fired.value.%s.0' % x, 'top(S1.%s, 0).values@ =~= Seq::empty()' % x)])
+        # APPEND: the vector is looked up first; nothing is consumed unless both operands exist
+        both = 'S0.%s.len() >= 1 && S0.%s.len() >= 1' % (x, e)
+        row(T + '.APPEND', ['C09'], fired='(%s)' % both, touches=[x, e], clauses=[
+            top_vec_becomes(x, '%s.push(top(S0.%s, 0))' % (v, e), both),
+            ('fired.%s' % e, '(%s) ==> S1.%s =~= S0.%s.drop_last()' % (both, e, e)),
+            ('{C09,C10}unfired.%s' % x, '!(%s) ==> S1.%s == S0.%s' % (both, x, x)),
+            ('{C09,C10}unfired.%s' % e, '!(%s) ==> S1.%s == S0.%s' % (both, e, e))])
+row('INTVECTOR.CONTAINS', ['C09'], takes=[('int', 1), ('intvec', 1)], pushes=[('bool', 'top(S0.intvec, 0).values@.contains(top(S0.int, 0))')])
+# SET*INSERT: creates an empty vector when there is none (documented), appends the integer unless it is already contained
+_iv = 'top(S0.intvec, 0).values@'
+row('INTVECTOR.SET*INSERT', ['C09'], touches=['intvec', 'int'], clauses=[
+    ('fired.int', 'S0.int.len() >= 1 ==> S1.int =~= S0.int.drop_last()'),
+    ('{C09,C10}unfired.int', 'S0.int.len() == 0 ==> S1.int == S0.int'),
+    top_vec_becomes('intvec', 'if %s.contains(top(S0.int, 0)) { %s } else { %s.push(top(S0.int, 0)) }' % (_iv, _iv, _iv), 'S0.intvec.len() >= 1 && S0.int.len() >= 1'),
+    ('fired.intvec.created', '(S0.intvec.len() == 0 && S0.int.len() >= 1) ==> S1.intvec.len() == 1 && S1.intvec[0].values@ =~= seq![top(S0.int, 0)]'),
+    ('fired.intvec.created.empty', '(S0.intvec.len() == 0 && S0.int.len() == 0) ==> S1.intvec.len() == 1 && S1.intvec[0].values@ =~= Seq::empty()'),
+    ('{C09,C10}unfired.intvec', '(S0.intvec.len() >= 1 && S0.int.len() == 0) ==> S1.intvec == S0.intvec')])
+# FROMINT: the top integer n (clamped into 0..depth) says how many of the remaining integers become the vector (order kept)
+_n = 'clamp_count(top(S0.int, 0) as int, S0.int.len() - 1)'
+row('INTVECTOR.FROMINT', ['C09', 'C15'], touches=['int', 'intvec'], clauses=[
+    ('fired.int', 'S0.int.len() >= 1 ==> S1.int =~= S0.int.subrange(0, S0.int.len() - 1 - %s)' % _n),
+    ('fired.intvec', 'S0.int.len() >= 1 ==> S1.intvec.len() == S0.intvec.len() + 1 && drop_n(S1.intvec, 1) =~= S0.intvec '
+     '&& top(S1.intvec, 0).values@ =~= S0.int.subrange(S0.int.len() - 1 - %s, S0.int.len() - 1)' % _n),
+    ('{C09,C10}unfired.int', 'S0.int.len() == 0 ==> S1.int == S0.int && S1.intvec == S0.intvec')])
+
+# ------------------------------------------------------------------ C06: EXEC / CODE control flow (single steps)
+IT = 'crate::push::item::Item'
+
+
+def instr(name):
+    return '(i is InstructionMeta && i->InstructionMeta_name@ == "%s"@)' % name
+
+
+def is_list_of(item, elems):
+    """item is a List whose elements, bottom first, satisfy the given predicates/equalities"""
+    conds = ['%s is List' % item, '%s->items@.len() == %d' % (item, len(elems))]
+    for k, e in enumerate(elems):
+        if e.startswith('='):
+            conds.append('%s->items@[%d] == %s' % (item, k, e[1:]))
+        else:
+            conds.append('({ let i = %s->items@[%d]; %s })' % (item, k, instr(e)))
+    return '(' + ' && '.join(conds) + ')'
+
+
+e0, e1, e2 = 'top(S0.exec, 0)', 'top(S0.exec, 1)', 'top(S0.exec, 2)'
+row('EXEC.IF', ['C06'], takes=[('exec', 2), ('bool', 1)], pushes=[('exec', 'if top(S0.bool, 0) { %s } else { %s }' % (e0, e1))])
+row('EXEC.K', ['C06'], takes=[('exec', 2)], pushes=[('exec', e0)])
+# S: A (top), B, C  ->  ( B C ), C, A (A on top); the list executes B first
+row('EXEC.S', ['C06'], takes=[('exec', 3)], pushes=[('exec', None), ('exec', e2), ('exec', e0)],
+    clauses=[('fired.value.exec.0', 'S0.exec.len() >= 3 ==> %s' % is_list_of('S1.exec[S0.exec.len() - 3]', ['=' + e2, '=' + e1]))])
+# Y: beneath the top item, ( EXEC.Y <top> )
+row('EXEC.Y', ['C06'], fired='(S0.exec.len() >= 1)', touches=['exec'], clauses=[
+    ('fired.exec', 'S0.exec.len() >= 1 ==> S1.exec.len() == S0.exec.len() + 1 && drop_n(S1.exec, 2) =~= drop_n(S0.exec, 1) && top(S1.exec, 0) == %s && %s'
+     % (e0, is_list_of('top(S1.exec, 1)', ['=' + e0, 'EXEC.Y']))),
+    ('{C06,C10}unfired.exec', 'S0.exec.len() == 0 ==> S1.exec == S0.exec')])
+# "=": the documentation does not say the operands are consumed; the comparison itself is on printed forms (opaque)
+row('EXEC.=', ['C06'], fired='(S0.exec.len() >= 2)', touches=['exec'], pushes=[('bool', None)], clauses=[('fired.operand.exec', 'shrunk(S0.exec, S1.exec, 2)')])
+row('EXEC.ID', ['C06'], pushes=[('int', '4i32')])
+row('CODE.ID', ['C08'], pushes=[('int', '3i32')])
+# LOOP: body, index -> if current < destination: ( body EXEC.LOOP INDEX.INCREASE ) then body on top; else the index is removed
+_ix = 'top(S0.index, 0)'
+for nm, src in [('EXEC.LOOP', 'exec'), ('CODE.LOOP', 'code')]:
+    body = 'top(S0.%s, 0)' % src
+    have = 'S0.%s.len() >= 1 && S0.index.len() >= 1' % src
+    go = '%s && %s.current < %s.destination' % (have, _ix, _ix)
+    stop = '%s && !(%s.current < %s.destination)' % (have, _ix, _ix)
+    base = 'drop_n(S0.exec, 1)' if src == 'exec' else 'S0.exec'
+    cl = [
+        ('fired.exec.rearm', '(%s) ==> S1.exec.len() == %s.len() + 2 && drop_n(S1.exec, 2) =~= %s && top(S1.exec, 0) == %s && %s'
+         % (go, base, base, body, is_list_of('top(S1.exec, 1)', ['=' + body, nm, 'INDEX.INCREASE']))),
+        ('fired.index.kept', '(%s) ==> S1.index == S0.index' % go),
+        ('fired.exec.done', '(%s) ==> S1.exec =~= %s' % (stop, base)),
+        ('fired.index.done', '(%s) ==> S1.index =~= S0.index.drop_last()' % stop),
+        ('{C06,C10}unfired.index', '!(%s) ==> S1.index == S0.index' % have),
+        ('{C06,C10}unfired.exec', '!(%s) ==> shrunk(S0.exec, S1.exec, %d)' % (have, 1 if src == 'exec' else 0)),
+    ]
+    if src == 'code':
+        cl += [('fired.code', '(%s) ==> S1.code =~= S0.code.drop_last()' % have), ('{C06,C10}unfired.code', '!(%s) ==> shrunk(S0.code, S1.code, 1)' % have)]
+    row(nm, ['C06'], touches=['exec', 'index'] + (['code'] if src == 'code' else []), clauses=cl)
+# CODE.DO: CODE.POP is scheduled beneath the program (runs after it); DO*: above it (runs first); the CODE stack is not touched by the step
+c0, c1 = 'top(S0.code, 0)', 'top(S0.code, 1)'
+row('CODE.DO', ['C06'], fired='(S0.code.len() >= 1)', pushes=[('exec', None), ('exec', c0)],
+    clauses=[('fired.value.exec.0', 'S0.code.len() >= 1 ==> ({ let i = top(S1.exec, 1); %s })' % instr('CODE.POP'))])
+row('CODE.DO*', ['C06'], fired='(S0.code.len() >= 1)', pushes=[('exec', c0), ('exec', None)],
+    clauses=[('fired.value.exec.1', 'S0.code.len() >= 1 ==> ({ let i = top(S1.exec, 0); %s })' % instr('CODE.POP'))])
+row('CODE.IF', ['C06'], takes=[('code', 2), ('bool', 1)], pushes=[('exec', 'if top(S0.bool, 0) { %s } else { %s }' % (c1, c0))])
+row('CODE.QUOTE', ['C06'], takes=[('exec', 1)], pushes=[('code', e0)])
+# INTVECTOR.LOOP: first element to INTEGER, body scheduled, then ( body INTVECTOR.LOOP <tail> )
+_vec = 'top(S0.intvec, 0).values@'
+_have = 'S0.intvec.len() >= 1 && S0.exec.len() >= 1'
+_go = '%s && %s.len() > 0' % (_have, _vec)
+row('INTVECTOR.LOOP', ['C06'], touches=['exec', 'intvec', 'int'], clauses=[
+    ('fired.intvec', 'S0.intvec.len() >= 1 ==> S1.intvec =~= S0.intvec.drop_last()'),
+    ('fired.int', '(%s) ==> S1.int =~= S0.int.push(%s[0])' % (_go, _vec)),
+    ('fired.exec', '(%s) ==> S1.exec.len() == S0.exec.len() + 1 && drop_n(S1.exec, 2) =~= drop_n(S0.exec, 1) && top(S1.exec, 0) == %s'
+     ' && top(S1.exec, 1) is List && top(S1.exec, 1)->items@.len() == 3 && top(S1.exec, 1)->items@[0] == %s'
+     ' && ({ let i = top(S1.exec, 1)->items@[1]; %s })'
+     ' && top(S1.exec, 1)->items@[2] is Literal && top(S1.exec, 1)->items@[2]->push_type is IntVector'
+     ' && top(S1.exec, 1)->items@[2]->push_type->IntVector_val.values@ =~= %s.subrange(1, %s.len() as int)'
+     % (_go, e0, e0, instr('INTVECTOR.LOOP'), _vec, _vec)),
+    ('fired.exec.done', '(%s && %s.len() == 0) ==> S1.exec =~= drop_n(S0.exec, 1) && S1.int == S0.int' % (_have, _vec)),
+    ('{C06,C10}unfired', '!(%s) ==> S1.int == S0.int && shrunk(S0.exec, S1.exec, 0) && shrunk(S0.intvec, S1.intvec, 1)' % _have)])
+
+# ------------------------------------------------------------------ C19: LIST records on the CODE stack
+_k = 'clamp_idx(top(S0.int, 0) as int, S0.code.len() as int)'
+row('LIST.REMOVE', ['C19'], takes=[('int', 1)], touches=['code'], clauses=[
+    ('fired.code', '(S0.int.len() >= 1 && S0.code.len() >= 1) ==> S1.code =~= S0.code.remove(S0.code.len() - 1 - %s)' % _k),
+    ('fired.code.empty', '(S0.int.len() >= 1 && S0.code.len() == 0) ==> S1.code == S0.code'),
+    ('{C19,C10}unfired.code', 'S0.int.len() == 0 ==> S1.code == S0.code')])
+# GET: a copy of the addressed record is scheduled for execution; the record stays where it is
+_rec = 'top(S0.code, %s)' % _k
+row('LIST.GET', ['C19'], takes=[('int', 1)], touches=['exec'], clauses=[
+    ('fired.exec', '(S0.int.len() >= 1 && S0.code.len() >= 1 && %s is List) ==> S1.exec.len() == S0.exec.len() + 1 && drop_n(S1.exec, 1) =~= S0.exec '
+     '&& top(S1.exec, 0) is List && top(S1.exec, 0)->items@ == %s->items@' % (_rec, _rec)),
+    ('{C19,C10}unfired.exec', '!(S0.int.len() >= 1 && S0.code.len() >= 1 && %s is List) ==> S1.exec == S0.exec' % _rec)])
+# BVAL / IVAL / FVAL: operands (record address = second, n = top); the record address is clamped; value: see spec fn nth_of_kind
+_k2 = 'clamp_idx(top(S0.int, 1) as int, S0.code.len() as int)'
+for nm, st in [('LIST.BVAL', 'bool'), ('LIST.IVAL', 'int'), ('LIST.FVAL', 'float')]:
+    row(nm, ['C19'], takes=[('int', 2)], guard='S0.code.len() >= 1', pushes=[(st, None)])
+# ADD / SET move items between all typed stacks (footprint: every stack a stack id can name, and CODE)
+_typed = ['bool', 'boolvec', 'code', 'exec', 'float', 'floatvec', 'int', 'intvec', 'name']
+row('LIST.ADD', ['C19'], touches=_typed, clauses=[
+    ('{C19,C10}unfired', 'S0.intvec.len() == 0 ==> (S1.bool == S0.bool && S1.boolvec == S0.boolvec && S1.code == S0.code && S1.exec == S0.exec '
+     '&& S1.float == S0.float && S1.floatvec == S0.floatvec && S1.int == S0.int && S1.intvec == S0.intvec && S1.name == S0.name)')])
+row('LIST.SET', ['C19'], touches=_typed, clauses=[
+    ('{C19,C10}unfired', 'S0.int.len() == 0 ==> (S1.bool == S0.bool && S1.boolvec == S0.boolvec && S1.code == S0.code && S1.exec == S0.exec '
+     '&& S1.float == S0.float && S1.floatvec == S0.floatvec && S1.int == S0.int && S1.intvec == S0.intvec && S1.name == S0.name)')])
+# NEIGHBOR*: operands and which stack receives the result (geometry: C20)
+row('LIST.NEIGHBOR*IDS', ['C20'], takes=[('int', 3), ('float', 1)], touches=['intvec'], clauses=[
+    ('fired.intvec', 'shrunk(S1.intvec, S0.intvec, 1) && S1.intvec.len() >= S0.intvec.len()'),
+    ('{C20,C10}unfired.intvec', '!(S0.int.len() >= 3 && S0.float.len() >= 1) ==> S1.intvec == S0.intvec')])
+for nm, st in [('LIST.NEIGHBOR*BVALS', 'boolvec'), ('LIST.NEIGHBOR*IVALS', 'intvec'), ('LIST.NEIGHBOR*FVALS', 'floatvec')]:
+    row(nm, ['C20'], takes=[('int', 4), ('float', 1)], touches=[st], clauses=[
+        ('fired.%s' % st, 'shrunk(S1.%s, S0.%s, 1) && S1.%s.len() >= S0.%s.len()' % (st, st, st, st)),
+        ('{C20,C10}unfired.%s' % st, '!(S0.int.len() >= 4 && S0.float.len() >= 1) ==> S1.%s == S0.%s' % (st, st))])
+
+# ------------------------------------------------------------------ C08: CODE list operations -- operand handling and footprint
+# (value clauses against the depth-first point functions are added in spec/code_rows below as they are proved)
+row('CODE.=', ['C08'], fired='(S0.code.len() >= 2)', touches=['code'], pushes=[('bool', None)], clauses=[('fired.operand.code', 'shrunk(S0.code, S1.code, 2)')])
+row('CODE.APPEND', ['C08'], takes=[('code', 2)], pushes=[('code', None)])
+row('CODE.ATOM', ['C08'], fired='(S0.code.len() >= 1)', pushes=[('bool', '!(top(S0.code, 0) is List)')])
+row('CODE.CAR', ['C08'], touches=['code'], clauses=[
+    ('fired.code', '(S0.code.len() >= 1 && top(S0.code, 0) is List && top(S0.code, 0)->items@.len() >= 1) ==> S1.code =~= S0.code.drop_last().push(top(S0.code, 0)->items@.last())'),
+    ('fired.code.nonlist', '(S0.code.len() >= 1 && !(top(S0.code, 0) is List)) ==> S1.code == S0.code'),
+    ('{C08,C10}unfired.code', 'S0.code.len() == 0 ==> S1.code == S0.code')])
+row('CODE.CDR', ['C08'], touches=['code'], clauses=[
+    ('fired.code', '(S0.code.len() >= 1 && top(S0.code, 0) is List) ==> S1.code.len() == S0.code.len() && drop_n(S1.code, 1) =~= drop_n(S0.code, 1) '
+     '&& top(S1.code, 0) is List && top(S1.code, 0)->items@ =~= (if top(S0.code, 0)->items@.len() >= 1 { top(S0.code, 0)->items@.drop_last() } else { top(S0.code, 0)->items@ })'),
+    ('{C08,C10}unfired.code', 'S0.code.len() == 0 ==> S1.code == S0.code')])
+row('CODE.CONS', ['C08'], takes=[('code', 2)], pushes=[('code', None)])
+for nm in ['CODE.CONTAINER']:
+    row(nm, ['C08'], fired='(S0.code.len() >= 2)', pushes=[('code', None)])
+for nm in ['CODE.CONTAINS', 'CODE.MEMBER']:
+    row(nm, ['C08'], fired='(S0.code.len() >= 2)', pushes=[('bool', None)])
+row('CODE.DISCREPANCY', ['C08'], fired='(S0.code.len() >= 2)', pushes=[('int', None)])
+row('CODE.DEFINITION', ['C07'], takes=[('name', 1)], guard='S0.bindings.contains_key(top(S0.name, 0))', pushes=[('code', 'S0.bindings[top(S0.name, 0)]')])
+row('CODE.EXTRACT', ['C08'], takes=[('int', 1)], guard='S0.code.len() >= 1', pushes=[('code', None)])
+row('CODE.FROMBOOLEAN', ['C04', 'C08'], takes=[('bool', 1)], pushes=[('code', '%s::Literal { push_type: crate::push::item::PushType::Bool { val: top(S0.bool, 0) } }' % IT)])
+row('CODE.FROMFLOAT', ['C04', 'C08'], takes=[('float', 1)], pushes=[('code', '%s::Literal { push_type: crate::push::item::PushType::Float { val: top(S0.float, 0) } }' % IT)])
+row('CODE.FROMINTEGER', ['C04', 'C08'], takes=[('int', 1)], pushes=[('code', '%s::Literal { push_type: crate::push::item::PushType::Int { val: top(S0.int, 0) } }' % IT)])
+row('CODE.FROMNAME', ['C04', 'C08'], takes=[('name', 1)], pushes=[('code', None)],
+    clauses=[('fired.value.code.0', 'S0.name.len() >= 1 ==> top(S1.code, 0) is Identifier')])
+row('CODE.INSERT', ['C08'], takes=[('int', 1)], touches=['code'], clauses=[
+    ('fired.code.shape', 'S1.code.len() == S0.code.len() && (S0.code.len() >= 1 ==> drop_n(S1.code, 1) =~= drop_n(S0.code, 1))'),
+    ('{C08,C10}unfired.code', '!(S0.int.len() >= 1 && S0.code.len() >= 2) ==> S1.code == S0.code')])
+row('CODE.LENGTH', ['C08'], fired='(S0.code.len() >= 1)',
+    pushes=[('int', 'if top(S0.code, 0) is List { top(S0.code, 0)->items@.len() as i32 } else { 1i32 }')])
+row('CODE.LIST', ['C08'], fired='(S0.code.len() >= 2)', pushes=[('code', None)],
+    clauses=[('fired.value.code.0', 'S0.code.len() >= 2 ==> top(S1.code, 0) is List && top(S1.code, 0)->items@ =~= seq![top(S0.code, 1), top(S0.code, 0)]')])
+row('CODE.NTH', ['C08'], takes=[('int', 1)], guard='S0.code.len() >= 1', pushes=[('code', None)])
+row('CODE.NULL', ['C08'], fired='(S0.code.len() >= 1)', pushes=[('bool', 'top(S0.code, 0) is List && top(S0.code, 0)->items@.len() == 0')])
+row('CODE.POSITION', ['C08'], fired='(S0.code.len() >= 2)', pushes=[('int', None)])
+row('CODE.PRINT', ['C11'], fired='(S0.code.len() >= 1)', pushes=[('name', None)])
+row('CODE.SIZE', ['C08'], fired='(S0.code.len() >= 1)', pushes=[('int', None)])
+row('CODE.SUBST', ['C08'], takes=[('code', 3)], pushes=[('code', None)])
